@@ -298,3 +298,38 @@ def receiver_fields_all(body, call, argi=0):
     if fs:
         out.add(tuple(fs))
     return out
+
+
+def forward_calls(body, local, through=None):
+    """calls that receive (a move/copy/reference of) the value in `local` as an argument; values returned by
+    calls matching `through` keep carrying it (iterator adapters, conversions)."""
+    holders = {local}
+    hits = []
+    seen_calls = set()
+    changed = True
+    while changed:
+        changed = False
+        for i, j, s in body.stmts():
+            d = s["p"][0]
+            if d in holders or len(s["p"]) != 1:
+                continue
+            r = s["r"]
+            src = None
+            if r["k"] in ("Use", "Cast") and r["o"][0]["k"] in ("cp", "mv"):
+                src = r["o"][0]["p"][0]
+            elif r["k"] in ("Ref", "RawPtr"):
+                src = r["p"][0]
+            if src in holders:
+                holders.add(d)
+                changed = True
+        for c in body.calls:
+            if c.bb in seen_calls:
+                continue
+            if any(op_local(a) in holders for a in c.args):
+                seen_calls.add(c.bb)
+                hits.append(c)
+                if through is not None and (through.search(c.name) or through.search(c.orig_name)):
+                    if c.dest[0] not in holders:
+                        holders.add(c.dest[0])
+                        changed = True
+    return hits
